@@ -50,6 +50,8 @@ def job_ops(job, plan):
         ol = max(ol, est // 40 + 1)
     for i in range(rng.choice([1, 3, 10, 40])):
         ops.append("pull %d" % max(1, rng.choice([ol, rng.below(ol + 1)])))
+        if rng.chance(.12):      # the bound is changed mid-stream by registering the same function again (soxr.h: "may be called at any time")
+            ops.append("setfn %d" % rng.choice([0, 1, 5, 16, 64, 1000]))
     for i in range(420):
         ops.append("pull %d" % ol)
     ops += ["pull 100", "pull 1", "hash"]
@@ -76,6 +78,8 @@ def oracle(job, tr):
     out = 0
     err_reported = None
     for l in tr.lines:
+        if l.startswith("> cr.setfn"):
+            maxilen = int(l.split()[2])
         if l.startswith("> cr.pull"):
             t = l.split()
             olen = int(t[2])
